@@ -399,6 +399,10 @@ def disregistry(ctx):
         base, disl = Sy(), Sy()
         base.atoms = Sy.A()
         base.atoms.pos = pos
+        # the dislocation system's own positions differ from reference + displacement by whole box vectors wherever an atom was wrapped: the plain difference of positions is
+        # not the displacement
+        disl.atoms = Sy.A()
+        disl.atoms.pos = pos + symarray('wrapped', (len(pos), 3), real=True)
         calls = []
 
         def displacement(a, b, *args, **kw):
